@@ -201,14 +201,24 @@ func (l *Lexer) identifier() Token {
 	}
 }
 
+func isDigit(b byte) bool {
+	return b >= '0' && b <= '9'
+}
+
+func (l *Lexer) digits() {
+	for !l.atEnd() && isDigit(l.peek()) {
+		l.advance()
+	}
+}
+
+// a number is digits with an optional fraction
 func (l *Lexer) number() Token {
-	for !l.atEnd() {
-		r := rune(l.peek())
-		if unicode.IsDigit(r) || r == '-' || r == '.' {
-			l.advance()
-		} else {
-			break
-		}
+	l.digits()
+	// a '.' only belongs to the number when a digit follows it, otherwise it's a
+	// member access like 1.floor()
+	if l.peek() == '.' && l.pos+1 < len(l.src) && isDigit(l.src[l.pos+1]) {
+		l.advance()
+		l.digits()
 	}
 	return l.stringToken(Num, l.pos-l.tokenStart)
 }
